@@ -26,6 +26,34 @@ fn tournament_case(c: &Case) -> (u64, u64, Option<(String, String)>, usize) {
     let mut pos_law: Law<usize> = Law::new();
     let mut bad: Option<String> = None;
     let mut max_draws = 0usize;
+    let label0 = format!("values={:?} k={}", c.values, c.k);
+    // per-leaf consequence stated by the property: the winner is at least as good as k-1 other members.
+    // Checked first on every stream with at most two non-default words (always terminates: beyond a
+    // horizon the words come from the tail stream), so that a sampler that loops or repeats entrants is
+    // reported before the exact law below is attempted
+    if c.k <= n {
+        let mut weak: Option<String> = None;
+        mcx::explore_bounded_h(
+            |env| observe_select(&sel, &pop, &pop, env, Alphabet::Grid(m)),
+            |t, o| {
+                if let SelObs::Idx(i) = o {
+                    let others_not_better = c.values.iter().enumerate().filter(|(j, v)| *j != i && **v <= c.values[i]).count();
+                    if others_not_better + 1 < c.k && weak.is_none() {
+                        weak = Some(format!("word choices {:?}: the winner (value {}) is at least as good as only {others_not_better} other members, a tournament of {} needs {}", t.iter().map(|x| x.pick).collect::<Vec<_>>(), c.values[i], c.k, c.k - 1));
+                    }
+                }
+            },
+            2,
+            40,
+            200_000,
+        );
+        if let Some(w) = weak {
+            return (1, 0, Some((format!("tournament/weak-winner/k={}", c.k), format!("{label0}: {w}"))), 0);
+        }
+    }
+    // a correct tournament of k makes exactly k range draws: lcm^k executions; far beyond that the subject
+    // samples differently (e.g. with rejection) and the exact law is not attempted
+    let expected_leaves = (m as u64).saturating_pow(c.k as u32);
     let stats = explore(
         |env| {
             let o = observe_select(&sel, &pop, &pop, env, Alphabet::Grid(m));
@@ -48,7 +76,7 @@ fn tournament_case(c: &Case) -> (u64, u64, Option<(String, String)>, usize) {
                 }
             }
         },
-        50_000_000,
+        expected_leaves.saturating_mul(8).saturating_add(10_000).min(50_000_000),
     );
     let label = format!("values={:?} k={}", c.values, c.k);
     if let Some(d) = &stats.diverged {
